@@ -57,6 +57,7 @@ def origin(ctx, body, op, depth=0, seen=None):
                     continue
                 seen.add(key)
                 ok2, why2 = origin_local(ctx, cb, 0, depth + 1, seen)
+                seen.discard(key)       # `seen` guards against cycles only: a second operand with the same origin is resolved again
                 (good if ok2 else bad).append(f"{r_[1].split('::')[-1]}() -> {why2}")
             elif r_[1] == 'std::sync::RwLock::<T>::read' and body.file == 'src/util.rs':
                 good.append('configured error-channel file')
@@ -99,6 +100,7 @@ def origin(ctx, body, op, depth=0, seen=None):
                     continue
                 seen.add(key)
                 ok2, why2 = origin(ctx, ab, t['args'][i - 1], depth + 1, seen)
+                seen.discard(key)
                 (good if ok2 else bad).append(f"via {a.split('::')[-1]}: {why2}")
     if bad:
         return False, '; '.join(bad)
